@@ -176,8 +176,11 @@ def block(ch, cfg, depth, ns, in_form=False):
                 out.append(control(ch, cfg, ns))
         elif r == 'svg':
             sns = NS_SVG if ns is not None else None
-            out.append(E('svg', {}, [E('circle', {'id': 'c'}, [], ns=sns), E('a', {'href': '#'}, [T('s')], ns=sns)],
-                         ns=sns))
+            kids = [E('circle', {'id': 'c'}, [], ns=sns), E('a', {'href': '#'}, [T('s')], ns=sns)]
+            if ch.p(0.4):
+                # camelCase SVG names: html5lib stores them with their capitals inside an HTML document
+                kids.append(E(ch.pick(('foreignObject', 'clipPath', 'linearGradient')), {}, [T('f')] if ch.p(0.5) else [], ns=sns))
+            out.append(E('svg', {}, kids, ns=sns))
         elif r == 'text':
             out.append(T(ch.pick(TEXTS)))
         else:
@@ -261,6 +264,11 @@ def gen_html_doc(ch, kinds=HTML_KINDS + ('xhtml', 'lxml-xml', 'xml-api'), depth=
         top = [E('root', hattrs, body)]
     else:
         top = [E('html', hattrs, [E('head', {}, head, ns=ns), E('body', {}, body, ns=ns)], ns=ns)]
+    if kind in ('html.parser', 'html-api') and cfg.get('fragment') and ch.p(cfg['fragment']):
+        # a fragment: several top-level elements directly under the BeautifulSoup object (html.parser keeps them so)
+        top = [n for n in body if n['k'] == 'e'] or top
+        if ch.p(0.5):
+            top = [E('p', hattrs, [T('first')])] + top
     if kind in ('html.parser', 'lxml', 'html5lib') and ch.p(0.3):
         top.insert(0, {'k': 'dt', 's': 'html'})
     if ch.p(0.6):
